@@ -42,7 +42,8 @@ COMPONENTS = {
 }
 PROBES = ["null mean hit 0", "null mean > u", "alternative clipped at u", "test raised", "NaN reported",
           "mean exactly t", "P(M<=v) == v attained (tight)", "some ordering rejects at 0.05", "audit-like urn (N > 9)",
-          "rounds on one test object and one buffer"]
+          "rounds on one test object and one buffer", "whole-number sample handed over as integers",
+          "test object re-configured by attribute assignment after serving another election"]
 # (the probe "anticipation probe fired -> deep enumeration" must stay at zero on a correct tree; it is not listed)
 LEVELS = [0.001, 0.01, 0.05, 0.1, 0.2, 0.5]
 _bcache = {}
@@ -138,6 +139,9 @@ def generate(rng, tier):
         case["object_used_before"] = bool(case["rounds_mode"] and rng.chance(0.5))
         if case["rounds_mode"] and len(case["lengths"]) < 2 and case["N"] >= 2:
             case["lengths"] = sorted(set(case["lengths"]) | {rng.randint(1, case["N"] - 1)})
+        # ... or another election altogether (other bound, null mean and tuning), then re-configured by attribute
+        # assignment, the way the audit code itself installs u
+        case["reconfigured"] = bool(case["object_used_before"] and rng.chance(0.5))
     if kind == "exact-iid":
         k = rng.randint(1, 3)
         for _ in range(200):
@@ -156,9 +160,17 @@ def generate(rng, tier):
                 break
         else:
             atoms, w, p2, q = [0], [1], 1, 64
+        if u >= 1 and t < 1 and rng.chance(0.25):
+            # 0/1 data (a ballot-polling assorter): P(1) = j/8 <= t
+            j = rng.randint(0, int(t * 8))
+            atoms, w, p2 = ([0, q], [8 - j, j], 8) if j else ([0], [1], 1)
         case["law"] = {"atoms": [a / q for a in atoms], "weights": w, "denominator": p2}
         n = rng.randint(1, 7 if len(atoms) <= 2 else 6)
         case["n"] = n
+        # rounds on views of one buffer (see exact-finite); only the longest round's lengths matter for the law
+        case["rounds_mode"] = bool(n >= 2 and rng.chance(0.3))
+        if case["rounds_mode"]:
+            case["lengths"] = sorted({rng.randint(1, n - 1), n})
     elif kind == "sampled":
         N = rng.randint(10, cfg_t["Nmax"])
         if mode == "finite":
@@ -181,12 +193,18 @@ def generate(rng, tier):
             case["n"] = N
         case["R"] = cfg_t["R"]
         case["order_seed"] = rng.getrandbits(48)
+    # whole-number data (0/1 polling values, ...) are handed over as integers in half of the cases where that is possible
+    case["as_ints"] = rng.chance(0.5)
     return case
 
 
 # --------------------------------------------------------------------------- execution
 def _observe(out, tst, x, stats_, raw=False):
     try:
+        if stats_.get("ints") and len(x) and all(float(v).is_integer() for v in x):
+            x = np.array([int(v) for v in x])
+            raw = True
+            stats_["ints_used"] = True
         if raw:  # hand the caller's own array (a view) to the test, as an audit in rounds does
             import warnings
             with warnings.catch_warnings():
@@ -236,12 +254,14 @@ def execute(case):
     cfg = case["cfg"]
     kind = case["kind"]
     mode = cfg["mode"]
-    st = {"raised": 0}
+    st = {"raised": 0, "ints": bool(case.get("as_ints"))}
     out.shape(f"{kind} {D.combo_name(cfg)} ro={cfg['random_order']}")
     if kind == "exact-finite":
         pop = case["pop"]
         N = case["N"]
         tst = D.make_test(ns, cfg, N)
+        if st["ints"] and all(float(v).is_integer() for v in pop):
+            out.probe("whole-number sample handed over as integers")
         orders, total = D.distinct_orderings(pop, 10 ** 6)
         if abs(sum(pop) - N * cfg["t"]) == 0:
             out.probe("mean exactly t")
@@ -252,7 +272,23 @@ def execute(case):
             dists = {n: {} for n in lens}
             earlier = sorted(pop)
             for o in orders:
-                if case.get("object_used_before"):
+                if case.get("object_used_before") and case.get("reconfigured"):
+                    cfg_a = copy.deepcopy(cfg)
+                    cfg_a.pop("u_init", None)
+                    cfg_a["u"] = cfg["u"] / 2  # the other election lives on half the scale: its largest legal bet is twice ours
+                    cfg_a["t"] = cfg["t"] / 2
+                    if "lam" in cfg_a["kwargs"]:
+                        cfg_a["kwargs"]["lam"] = 1.0 / cfg_a["u"]
+                    if "eta" in cfg_a["kwargs"]:
+                        cfg_a["kwargs"]["eta"] = cfg_a["t"] + (cfg_a["u"] - cfg_a["t"]) * 0.75
+                    t1 = D.make_test(ns, cfg_a, N + 12)
+                    for n in reversed(lens):  # (so that its last call has the length of this audit's first round)
+                        _observe(out, t1, np.array([min(v, cfg_a["u"]) for v in earlier[:n]], dtype=float), dict(st, ints=False), raw=True)
+                    t1.u, t1.t, t1.N = cfg["u"], cfg["t"], N
+                    for k_, v_ in cfg["kwargs"].items():
+                        setattr(t1, k_, v_)
+                    out.probe("test object re-configured by attribute assignment after serving another election")
+                elif case.get("object_used_before"):
                     t1 = D.make_test(ns, cfg, N + 12)
                     for n in lens:
                         _observe(out, t1, np.array(earlier[:n], dtype=float), st, raw=True)
@@ -366,12 +402,22 @@ def execute(case):
         dist = {}
         total = law["denominator"] ** n
         import itertools
+        lens_r = case.get("lengths") if case.get("rounds_mode") else None
+        if lens_r:
+            out.probe("rounds on one test object and one buffer")
         for seq in itertools.product(range(len(atoms)), repeat=n):
             wt = 1
             for i in seq:
                 wt *= w[i]
             x = [atoms[i] for i in seq]
-            m = _observe(out, tst, x, st)
+            if lens_r:
+                # an audit in rounds: p-values asked for after n1 < n draws on views of one buffer; what counts is
+                # the smallest value reported in any round
+                buf = np.array(x, dtype=float)
+                ms = [_observe(out, tst, buf[:n_], dict(st, ints=False), raw=True) for n_ in lens_r]
+                m = None if any(v is None for v in ms) else min(ms)
+            else:
+                m = _observe(out, tst, x, st)
             out.units["draws"] += n
             out.units["test_calls"] += 1
             if m is None:
